@@ -316,7 +316,7 @@ func (self *ReplicationBufferQueue) Pop(cursor *ReplicationBufferQueueCursor) er
 			self.glock.RUnlock()
 			return io.EOF
 		}
-		if currentItem.seq-cursor.seq != 1 && currentItem.seq != 0 && cursor.seq != 0xffffffffffffffff {
+		if currentItem.seq-cursor.seq != 1 && currentItem.seq != 0 {
 			self.glock.RUnlock()
 			return errors.New("out of buf")
 		}
@@ -1193,13 +1193,21 @@ func (self *ReplicationServer) handleInitSync(command *protocol.CallCommand) (*p
 	}
 
 	if request.AofId == "" {
+		// same lock order as Aof.PushLock (aofGlock, then replGlock): no record can be counted in
+		// aofFileOffset and not yet be published to the ring while the bound is computed
+		self.aof.aofGlock.Lock()
+		self.aof.replGlock.Lock()
 		err = self.manager.bufferQueue.Head(self.bufferCursor)
+		if err == io.EOF {
+			self.waofLock.AofIndex = self.aof.aofFileIndex
+			self.waofLock.AofOffset = self.aof.aofFileOffset + 1
+		}
+		self.aof.replGlock.Unlock()
+		self.aof.aofGlock.Unlock()
 		if err != nil {
 			if err != io.EOF {
 				return protocol.NewCallResultCommand(command, 0, "ERR_STATE", nil), nil
 			}
-			self.waofLock.AofIndex = self.aof.aofFileIndex
-			self.waofLock.AofOffset = self.aof.aofFileOffset + 1
 		} else {
 			self.waofLock.buf = self.bufferCursor.buf
 			err = self.waofLock.Decode()
